@@ -25,8 +25,10 @@
 EXTENDS Naturals, FiniteSets, Sequences, TLC
 
 CONSTANTS
-    RedirectGuard,     \* TRUE: a redirect that leaves (https, same host) is refused.  FALSE: net/http default policy, any
-                       \*       redirect is followed (StrictHTTPClient checks the scheme of the first request only; F14)
+    RedirectHttpsGuard,\* TRUE: a redirect to a plain http:// URL is refused in strict mode (checkRedirect, repaired in 32e5edf).
+                       \*       FALSE: StrictHTTPClient checks the scheme of the first request only (F14 as found)
+    RedirectHostGuard, \* TRUE: an https redirect to ANOTHER host (name or IP literal) is refused.  FALSE: net/http default policy, it is
+                       \*       followed and the document of the foreign origin accepted (open part of F14)
     SlashKeptEncoded,  \* TRUE: "%2F" inside a path segment stays inside that segment of the fetched URL.  FALSE: web.go appends
                        \*       "/did.json" to URL.Path only, RawPath is lost and the slash becomes a separator
     EscapedRoundTrip,  \* TRUE: URLToDID re-escapes everything DIDToURL left escaped.  FALSE: only the sub-delims are re-escaped, an
@@ -62,6 +64,8 @@ RoundTrips(h, p)  == /\ HostAccepted(h) /\ ~PathRejected(p)
 (*--------------------------- server answer classes ----------------------*)
 IsRedirect(a)   == a \in {"redir-samehost", "redir-otherhost", "redir-http", "redir-http-ip", "redir-https-ip"}
 RedirectLeaves(a) == a \in {"redir-otherhost", "redir-http", "redir-http-ip", "redir-https-ip"}
+RedirectRefused(a) == \/ (a \in {"redir-http", "redir-http-ip"} /\ RedirectHttpsGuard)
+                      \/ (a \in {"redir-otherhost", "redir-https-ip", "redir-http-ip"} /\ RedirectHostGuard)
 RedirOrigin(a)  == CASE a = "redir-samehost"  -> [scheme |-> "https", host |-> "enc",   path |-> "moved"]
                      [] a = "redir-otherhost" -> [scheme |-> "https", host |-> "other", path |-> "moved"]
                      [] a = "redir-http"      -> [scheme |-> "http",  host |-> "enc",   path |-> "moved"]
@@ -124,7 +128,7 @@ Fetch == /\ pc = "fetch"
          /\ fetches' = fetches \cup {[scheme |-> "https", host |-> "enc",
                                       path |-> IF PathFetchedAsEncoded(c.path) THEN "enc" ELSE "other"]}
          /\ IF IsRedirect(c.ans)
-              THEN IF RedirectGuard /\ RedirectLeaves(c.ans)
+              THEN IF RedirectLeaves(c.ans) /\ RedirectRefused(c.ans)
                      THEN Done("error", "none", "redirect")
                      ELSE pc' = "follow" /\ UNCHANGED <<outcome, docid, why>>
               ELSE pc' = "check" /\ UNCHANGED <<outcome, docid, why>>
